@@ -111,3 +111,24 @@ package emulated
 //@   ensures @limbwise !(aConst && bConst) ==> len(result.Limbs) == nbLimbs && forall k int :: 0 <= k && k < nbLimbs ==> den(result.Limbs[k]) == fsub(fadd(ofInt(*padLimbs[k]), (k < len(a.Limbs) ? den(a.Limbs[k]) : f0)), (k < len(b.Limbs) ? den(b.Limbs[k]) : f0))
 //@   loop 1 invariant @limbs len(limbs) == nbLimbs && fresh(limbs) && len(padLimbs) >= nbLimbs && forall k int :: 0 <= k && k <= rangeindex ==> den(limbs[k]) == fsub(fadd(ofInt(*padLimbs[k]), (k < len(a.Limbs) ? den(a.Limbs[k]) : f0)), (k < len(b.Limbs) ? den(b.Limbs[k]) : f0))
 //@   loop 1 invariant @pad forall k int :: 0 <= k && k < len(padLimbs) ==> padLimbs[k] != nil && *padLimbs[k] >= pow2(b.overflow + bpl(fp))
+
+// add: limb-wise sums of the operands (missing limbs count as zero), the declared overflow is the one the caller computed
+//@ contract (*Field).add
+//@   props C12
+//@   assigns *f.api
+//@   requires f != nil && f.api != nil && a != nil && b != nil
+//@   ensures @shape !(aConst && bConst) ==> len(result.Limbs) == nbLimbs && nbLimbs >= len(a.Limbs) && nbLimbs >= len(b.Limbs) && result.overflow == nextOverflow
+//@   ensures @limbwise !(aConst && bConst) ==> forall k int :: 0 <= k && k < nbLimbs ==> den(result.Limbs[k]) == fadd((k < len(a.Limbs) ? den(a.Limbs[k]) : f0), (k < len(b.Limbs) ? den(b.Limbs[k]) : f0))
+//@   loop 1 invariant @limbs len(limbs) == nbLimbs && fresh(limbs) && forall k int :: 0 <= k && k <= rangeindex ==> den(limbs[k]) == fadd((k < len(a.Limbs) ? den(a.Limbs[k]) : f0), (k < len(b.Limbs) ? den(b.Limbs[k]) : f0))
+
+// overflow bookkeeping of lazy addition / subtraction (from the arithmetic, not from the code): limbs below 2^(w+oa) and
+// 2^(w+ob) add up to below 2^(w+max(oa,ob)+1); a + pad - b with 2^(w+ob) <= pad limbs < 2^(w+ob+1) stays below
+// 2^(w+max(oa,ob+1)+1). The declared overflow of the result must dominate these, and no error means it fits.
+//@ contract (*Field).addPreCond
+//@   props C12
+//@   requires f != nil && a != nil && b != nil && a.overflow < 4294967296 && b.overflow < 4294967296
+//@   ensures @dominates result.0 >= a.overflow + 1 && result.0 >= b.overflow + 1
+//@ contract (*Field).subPreCond
+//@   props C12
+//@   requires f != nil && a != nil && b != nil && a.overflow < 4294967296 && b.overflow < 4294967296
+//@   ensures @dominates result.0 >= a.overflow + 1 && result.0 >= b.overflow + 2
